@@ -3,15 +3,17 @@
 # A harmless (property-preserving) rewrite of the code must NOT raise an alarm: applies it to a scratch worktree
 # of /repo's HEAD, runs demo (must exit 0), baseline suite, and ./vcheck PROP (expected: exit 0).
 patch="$(readlink -f "$1")"; demo="$(readlink -f "$2")"; prop="$3"; tier="${4:-quick}"
-cd /verif || exit 2
-R=/tmp/harmlesstest/repo
-git -C /repo worktree remove --force $R >/dev/null 2>&1; rm -rf $R; mkdir -p /tmp/harmlesstest
+# VERIF_DIR / TEST_SCRATCH let a sub-agent run this from its own verif worktree with a private scratch worktree
+cd "${VERIF_DIR:-/verif}" || exit 2
+SCR="${TEST_SCRATCH:-/tmp/harmlesstest}"
+R=$SCR/repo
+git -C /repo worktree remove --force $R >/dev/null 2>&1; rm -rf $R; mkdir -p $SCR
 git -C /repo worktree add -q --detach $R HEAD || exit 2
 git -C $R apply "$patch" || { echo "patch does not apply"; git -C /repo worktree remove --force $R; exit 2; }
 trap 'git -C /repo worktree remove --force $R' EXIT
-( cd $R && PYTHONPATH=$R timeout 900 /venv/bin/python "$demo" >/tmp/harmless_demo.out 2>&1 ); echo "demo with rewrite: exit $?"
+( cd $R && PYTHONPATH=$R timeout 900 /venv/bin/python "$demo" >$SCR/demo.out 2>&1 ); echo "demo with rewrite: exit $?"
 ( cd $R && /venv/bin/python -m pytest -q -p no:cacheprovider --timeout=900 2>&1 | grep -E "passed|failed" | tail -1 )
-cp -f evidence/$prop.json /tmp/harm_ev_backup_$prop.json 2>/dev/null
+cp -f evidence/$prop.json $SCR/ev_backup_$prop.json 2>/dev/null
 EMD_REPO=$R ./vcheck "$prop" --tier "$tier" 2>&1 | grep -E "VIOLATION|KNOWN-FINDING|$prop $tier|error" | head -6
 echo "vcheck exit ${PIPESTATUS[0]}"
-cp -f /tmp/harm_ev_backup_$prop.json evidence/$prop.json 2>/dev/null
+cp -f $SCR/ev_backup_$prop.json evidence/$prop.json 2>/dev/null
